@@ -115,7 +115,7 @@ func TestC25(t *testing.T) {
 	}
 	sizes := []int{0, 1, 2, 15, 16, 17, 16383, 16384, 16385, 32768}
 	client := Target{Name: "all-suites", Spec: allSuitesSpec(weak)}
-	reps := mon.Pick(4, 30)
+	reps := mon.Pick(4, 300)
 	type job struct {
 		c        combo
 		scenario string
